@@ -187,6 +187,14 @@ package trzsz
 //@   ghostvar fired bool = false
 //@   after recv:b.timeout set fired = true
 //@   ensures [C18] r1 != nil && fired ==> b.newTimeout == nil
+//@   # C11: the blocked reader wakes on data, on a stop and on the timeout - all three arms are there, and the
+//@   # stop and timeout arms end the wait with an error
+//@   ghostvar wokeStop bool = false
+//@   after recv:b.stopCh set wokeStop = true
+//@   ensures [C11] wokeStop ==> r1 != nil
+//@   ensures [C11] fired && old(b.newTimeout) == nil && !wokeStop && recvd[b] == old(recvd)[b] ==> r1 != nil
+//@   loop 1
+//@     invariant [C11] !wokeStop && (old(b.newTimeout) == nil ==> b.newTimeout == nil && !fired)
 //@ end
 
 //@ # the line buffer holds exactly G[b][p .. p+n)
@@ -1695,6 +1703,14 @@ package trzsz
 //@   requires [C10] createdMade(t)
 //@   before trzszTransfer.deleteCreatedFiles assert [C10] result_of("atomic.Bool.Load", 0, 0)
 //@   before trzszTransfer.sendString#1 assert [C10] len(result_of("trzszTransfer.deleteCreatedFiles", 0, 0)) > 0 && result_of("atomic.Bool.Load", 0, 0)
+//@   # C11: a side that can still talk tells its peer why - after draining its input the client sends a
+//@   # fail line (FAIL / fail) unless the error is the peer's own exit or fail message
+//@   ghostvar c11told bool = false
+//@   ghostvar c11drained bool = false
+//@   after trzszTransfer.cleanInput set c11drained = true
+//@   after trzszTransfer.sendString set c11told = true
+//@   before trzszTransfer.sendString assert [C11] c11drained && (p0 == "fail" || p0 == "FAIL")
+//@   ensures [C11] c11told || (typeis(err, "*trzszError") && (result_of("trzszError.isRemoteExit", 0, 0) || result_of("trzszError.isRemoteFail", 0, 0)))
 //@ end
 
 //@ # files are deleted on the server only when the error is the peer's "Stopped and deleted"
@@ -1718,6 +1734,17 @@ package trzsz
 //@         (forall k int {wlog[file][k]} :: old(wlen)[file] <= k && k < wlen[file] ==> wlog[file][k] == src[k - old(wlen)[file]])
 //@   before send:ackImmediatelyChan assert [C02] got == size && wlen[file] == old(wlen)[file] + size && \
 //@       (forall k int {wlog[file][k]} :: old(wlen)[file] <= k && k < wlen[file] ==> wlog[file][k] == src[k - old(wlen)[file]])
+//@   # C11: the progress hand-over can be abandoned on cancellation; a failed write to the destination, or a
+//@   # saved size that differs from the announced one, cancels the pipeline (with a cause)
+//@   before send:progressChan assert [C11] guarded()
+//@   ghostvar c11failed bool = false
+//@   ghostvar c11told bool = false
+//@   after writeAll set c11failed = c11failed || r0 != nil
+//@   after context.CancelCauseFunc set c11told = true
+//@   before context.CancelCauseFunc assert [C11] p0 != nil
+//@   ensures [C11] c11failed ==> c11told
+//@   loop 1
+//@     invariant [C11] !c11failed
 //@ end
 
 //@ # The reading stage of the pipelined sender: every chunk read from the file goes, as the very same
@@ -1732,6 +1759,18 @@ package trzsz
 //@     invariant [C02] 0 <= step && toData == step && toMD5 == step
 //@   before send:fileDataChan assert [C02] same(p0, buffer[:n]) && n > 0 && toData == toMD5 && step + n <= size
 //@   before send:md5SourceChan assert [C02] same(p0, buffer[:n]) && toData == toMD5 + n
+//@   # C11: both hand-overs can be abandoned on cancellation; a failed or short read of the source cancels the pipeline
+//@   before send:fileDataChan assert [C11] guarded()
+//@   before send:md5SourceChan assert [C11] guarded()
+//@   ghostvar c11failed bool = false
+//@   ghostvar c11told bool = false
+//@   after fileReader.Read set c11failed = r1 != nil && !(r1 == pkgvar("io.EOF") && step + r0 == size)
+//@   after context.CancelCauseFunc set c11told = true
+//@   ghostvar c11gone bool = false
+//@   after recv:Done() set c11gone = true
+//@   ensures [C11] c11failed && !c11gone ==> c11told
+//@   loop 1
+//@     invariant [C11] !c11failed
 //@ end
 
 //@ # The decoding stage of the pipelined receiver: every decoded chunk goes, as the very same slice,
@@ -1750,6 +1789,14 @@ package trzsz
 //@     invariant [C02] toData == toMD5
 //@   before send:fileDataChan assert [C02] same(p0, buffer[:n]) && n > 0 && toData == toMD5
 //@   before send:md5SourceChan assert [C02] same(p0, buffer[:n]) && toData == toMD5 + n
+//@   # C11: both hand-overs can be abandoned on cancellation; a decoder error cancels the pipeline
+//@   before send:fileDataChan assert [C11] guarded()
+//@   before send:md5SourceChan assert [C11] guarded()
+//@   ghostvar c11failed bool = false
+//@   ghostvar c11told bool = false
+//@   after readCloser.Read set c11failed = r1 != nil && r1 != pkgvar("io.EOF")
+//@   after context.CancelCauseFunc set c11told = true
+//@   before context.CancelCauseFunc assert [C11] p0 != nil
 //@ end
 
 //@ # The receiving stage: the chunk handed to the decoder is a private copy of exactly the chunk whose
@@ -1758,6 +1805,10 @@ package trzsz
 //@   before send:ackChan assert [C02] p0 == len(data)
 //@   before send:recvDataChan assert [C02] len(p0) == len(data) && len(data) > 0 && ref(p0) != ref(data) && \
 //@       (forall k int {p0[k]} :: 0 <= k && k < len(data) ==> p0[k] == data[k])
+//@   # C11: both hand-overs can be abandoned on cancellation; a receive error cancels the pipeline with that error
+//@   before send:ackChan assert [C11] guarded()
+//@   before send:recvDataChan assert [C11] guarded()
+//@   before context.CancelCauseFunc assert [C11] p0 != nil
 //@ end
 
 //@ # Success of the pipelined receiver is signalled only when the number of bytes the saving stage
@@ -1777,6 +1828,8 @@ package trzsz
 //@ # announced size as saved.
 //@ func trzszTransfer.pipelineRecvFinalAck
 //@   before send:ctx.succ assert [C02] step == size && result_of("strconv.ParseInt", 0, 1) == nil
+//@   before send:progressChan assert [C11] guarded()
+//@   before context.CancelCauseFunc assert [C11] p0 != nil
 //@ end
 
 //@ # The relay's output pump starts a handshake exactly where its detector returned a trigger for the
@@ -1988,12 +2041,16 @@ package trzsz
 //@   loop 1
 //@     invariant [C18] !owed
 //@   ensures [C18] !owed
+//@   # C11: the progress hand-over can be abandoned on cancellation; a bad acknowledgement cancels with a cause
+//@   before send:progressChan assert [C11] guarded()
+//@   before context.CancelCauseFunc assert [C11] p0 != nil
 //@ end
 
 //@ # The sending stage of the pipelined sender.  deliver: the record queued for the acknowledgement stage
 //@ # carries exactly the length that was just written to the connection without error.
 //@ func trzszTransfer.pipelineSendData$1
 //@   before send:ackChan assert [C02] p0.length == length && result_of("trzszTransfer.sendDataV2", 0, 1) == nil
+//@   before send:ackChan assert [C11] guarded()
 //@ end
 //@ # the goroutine: a chunk that fits is delivered whole, once, as the encoder framed it; a larger one is cut
 //@ # into consecutive pieces - each starts where the previous one ended, none is empty beyond the chunk -
@@ -2007,6 +2064,17 @@ package trzsz
 //@       pos + p1 <= len(data.data)
 //@   loop 2
 //@     invariant [C02] pos == data.index
+//@   # C11: a failed delivery cancels the pipeline with that error
+//@   before context.CancelCauseFunc assert [C11] p0 != nil
+//@   ghostvar c11failed bool = false
+//@   ghostvar c11told bool = false
+//@   after dynamic:deliver set c11failed = c11failed || r0 != nil
+//@   after context.CancelCauseFunc set c11told = true
+//@   ensures [C11] c11failed ==> c11told
+//@   loop 1
+//@     invariant [C11] !c11failed
+//@   loop 2
+//@     invariant [C11] !c11failed
 //@ end
 
 //@ # The chunking writer of the pipelined sender: the record handed to the sending stage holds the chunk
@@ -2028,6 +2096,7 @@ package trzsz
 //@       len(p0.buffer) == 6 + len(data) + len(b.transfer.transferConfig.Newline)
 //@   before send:b.sendDataChan assert [C04] !b.transfer.transferConfig.Binary ==> \
 //@       (forall k int {data[k]} :: 0 <= k && k < len(data) ==> p0.buffer[6 + k] == data[k])
+//@   before send:b.sendDataChan assert [C11] guarded()
 //@ end
 
 //@ # Write: every byte of p goes, in order, either into a delivered chunk or into the pending buffer -
@@ -2066,6 +2135,7 @@ package trzsz
 //@       len(r.buf) == glen - r0 && (len(r.buf) > 0 ==> ref(r.buf) == gref && off(r.buf) == goff + r0) && \
 //@       (ref(p) != gref ==> (forall k int {p[k]} :: 0 <= k && k < r0 ==> p[k] == old(heap("byte"))[gref][goff + k]))
 //@   ensures [C02] r1 != nil ==> r0 == 0 && (old(len(r.buf)) > 0 ==> same(r.buf, old(r.buf)))
+//@   before recv:r.dataChan assert [C11] guarded()
 //@ end
 
 //@ # The top-level loops.  Success is returned only if every file that was opened went through its digest
@@ -2343,4 +2413,49 @@ package trzsz
 //@   ensures [C14,C17] result_of("atomic.Int32.CompareAndSwap", 0, 0) ==> \
 //@       (result_of("atomic.Pointer.Load[net.Listener]", 0, 0) != nil ==> listenerDropped) && \
 //@       (result_of("atomic.Pointer.Load[github.com/trzsz/trzsz-go/trzsz.tunnelRelay]", 0, 0) != nil ==> relayDropped)
+//@ end
+
+//@ # The client's ACT: it announces the tunnel exactly when a connection was adopted (and then writes to that
+//@ # connection from here on); without a tunnel and towards / on Windows it asks for the '!'-framed newline and
+//@ # withdraws binary mode; it never offers a protocol above its own, and carries the caller's confirm flag.
+//@ func trzszTransfer.sendAction
+//@   before json.Marshal assert [C17] action.TunnelConnected == (result_of("atomic.Pointer.Load[net.Conn]", 0, 0) != nil) && \
+//@       t.tunnelConnected == (old(t.tunnelConnected) || result_of("atomic.Pointer.Load[net.Conn]", 0, 0) != nil)
+//@   before json.Marshal assert [C16,C14] !t.tunnelConnected && (windowsEnvironment || remoteIsWindows) ==> \
+//@       action.Newline == "!\n" && !action.SupportBinary
+//@   before json.Marshal assert [C14] action.Protocol <= kProtocolVersion && action.Protocol >= 2 && action.Confirm == confirm && \
+//@       unboxTo(p0, "*transferAction") == action
+//@ end
+
+//@ # version comparison is the lexicographic order of the three numbers
+//@ func trzszVersion.compare pure
+//@   ensures [C06,C14] -1 <= r0 && r0 <= 1
+//@   ensures [C06,C14] r0 == 0 <==> (v[0] == ver[0] && v[1] == ver[1] && v[2] == ver[2])
+//@   ensures [C06,C14] r0 < 0 <==> (v[0] < ver[0] || (v[0] == ver[0] && v[1] < ver[1]) || (v[0] == ver[0] && v[1] == ver[1] && v[2] < ver[2]))
+//@   loop 1
+//@     invariant 0 <= i && i <= 3 && (forall j int {v[j]} :: 0 <= j && j < i ==> v[j] == ver[j])
+//@ end
+
+//@ # The encoding stage: binary mode goes through the escaping writer built over the announced escape table
+//@ # (under zstd when compressing), text mode through base64 - never the other way round, never unescaped;
+//@ # every chunk from the reading stage is written whole, as received, to that chain.
+//@ func newSendDataWriter
+//@   assigns bufLen, bufCap, bufArr
+//@   ensures r0 != nil && r0.transfer == transfer && r0.ctx == ctx && r0.sendDataChan == sendDataChan && r0.buffer != nil
+//@ end
+//@ func trzszTransfer.pipelineEncodeData$1
+//@   before newEscapeWriter assert [C04] t.transferConfig.Binary && p0 == t.transferConfig.EscapeTable && typeis(p1, "*sendDataWriter")
+//@   before newBase64Writer assert [C04] !t.transferConfig.Binary && typeis(p0, "*sendDataWriter")
+//@   before newZstdWriter assert [C04] compress
+//@   before writeAll assert [C04,C02] same(p1, data) && p0 == writer
+//@   # C11: every failure of the encoder chain cancels the pipeline with a cause
+//@   before context.CancelCauseFunc assert [C11] p0 != nil
+//@   ghostvar c11failed bool = false
+//@   ghostvar c11told bool = false
+//@   after writeAll set c11failed = c11failed || r0 != nil
+//@   after writeCloseFlusher.Flush set c11failed = c11failed || r0 != nil
+//@   after context.CancelCauseFunc set c11told = true
+//@   ensures [C11] c11failed ==> c11told
+//@   loop 1
+//@     invariant [C11] !c11failed
 //@ end
